@@ -333,6 +333,19 @@ def check (c):
     worst = max (worst, d / 1e-12)
     if d > 1e-12:
         bad ('medium-object-reused', 'medium-object-reused', 'a Medium object that was the outer medium of a circular ground with radials, used again as the outer medium of a linear ground: pattern differs by %.3g of the maximum from fresh objects (boundary now %r)' % (d, getattr (mB.media [0], 'boundary', None)), measured = d, allowed = 1e-12)
+    # ---- (h3) the first medium of a model with two media handed, afterwards, to a second model as its only medium: the
+    # first model is what it was (what a model computes does not depend on which other models were made after it)
+    firstC = MM.Medium (g ['eps'], g ['sig'], 0.0, coord = g ['c1'], boundary = g ['boundary'])
+    mC = gen.build (sA, route = 'api', media_objs = [firstC, MM.Medium (g ['eps2'], g ['sig2'], g ['h2'], boundary = g ['boundary'])])
+    observe.solve (mC)
+    pC0 = 10 ** (pattern (mC) [..., 2] / 10)
+    mD = gen.build (sA, route = 'api', media_objs = [firstC])
+    pC1 = 10 ** (pattern (mC) [..., 2] / 10)
+    mon ['medium-shared-later'] = 1
+    d = float (np.abs (pC1 - pC0).max () / pC0.max ())
+    worst = max (worst, d / 1e-12)
+    if d > 1e-12:
+        bad ('medium-shared-later', 'medium-object-shared-with-a-later-model', 'the first Medium object of a model with two media was handed to a second model as its only medium: the pattern of the first model changed by %.3g of the maximum (its first medium now ends at %r)' % (d, getattr (mC.media [0], 'coord', None)), measured = d, allowed = 1e-12)
     # ---- (h2) interface coordinates in whole numbers, handed to the classes as python ints (also one on the last medium)
     ci = max (1, int (round (g ['c1'])))
     mI = gen.build (sA, route = 'api', media_objs = [MM.Medium (g ['eps'], g ['sig'], 0, coord = ci, boundary = g ['boundary']), MM.Medium (g ['eps2'], g ['sig2'], g ['h2'], coord = 7 * ci, boundary = g ['boundary'])])
